@@ -33,6 +33,7 @@ func init() {
 			for _, hc := range cfgs {
 				hc.between = []string{"none", "arrive", "sitout", "rebuy", "leave-busted", "leave-live"}
 				hc.mid = []string{"none", "arrive", "rebuy-part", "leave-sitout"}
+				hc.between2 = true
 			}
 			ss := histSuites("c05/", cfgs, bound, func(h *hist) []Monitor { return []Monitor{newMonC05()} })
 			ss = append(ss, raceSuites("c05/", tier, true, func(h *hist) []Monitor { return []Monitor{newMonC05()} })...)
@@ -56,6 +57,7 @@ func init() {
 			for _, hc := range cfgs {
 				hc.between = []string{"none", "arrive", "sitout", "rebuy", "leave-busted", "leave-live"}
 				hc.mid = []string{"none", "arrive", "leave-sitout"}
+				hc.between2 = true
 			}
 			ss := histSuites("c06/", cfgs, bound, func(h *hist) []Monitor { return []Monitor{newMonC06()} })
 			// label-table sweep: every number of dealt-in players 2..10 (all present) on 10 seats, two fold-out hands,
@@ -76,7 +78,7 @@ func init() {
 	})
 	register(&Check{
 		ID: "C07", Level: "model_checking",
-		Rule:        "multi-hand table histories with membership changes, blind updates (raise, break, resume), repeated set-up / start, external pause / close / release between hands, every settlement-finished policy; a status automaton is run over every notification and every quiescent GetTable(): only life-cycle edges (plus injected external ones), game count +1 per open, fresh game ids, no open while a hand state exists, per-hand fields reset at standby, no open after close/release between hands, on a break or with unset blinds",
+		Rule:        "multi-hand table histories with membership changes, blind updates (raise, break, resume), repeated set-up / start, external pause / close / release between hands, every settlement-finished policy; a status automaton is run over every notification and every quiescent GetTable(): only life-cycle edges (plus injected external ones), game count +1 per open, fresh game ids, no open while a hand state exists, per-hand fields reset at standby, no open after close/release between hands, on a break or with unset blinds; plus schedule exploration of CloseTable / ReleaseTable racing the continue step and the opening, and with an add-on holding the engine lock while the open trigger waits for it",
 		Assumptions: []string{"external calls are placed at quiescent points between hands; schedule exploration of the asynchronous open-game trigger is covered by the gate harness (C09)"},
 		Suites: func(tier string) []*Suite {
 			bound, hands := 2, 4
@@ -117,9 +119,9 @@ func init() {
 			}
 			cfgs := layoutConfigs(tier, hands, []pt.TableBlindState{blindStd()})
 			for _, hc := range cfgs {
-				hc.between = []string{"none", "arrive", "sitout", "rebuy", "leave-busted", "leave-live", "blind-break"}
+				hc.between = []string{"none", "arrive", "sitout", "join-sitout", "rebuy", "leave-busted", "leave-live", "blind-break"}
 				hc.mid = []string{"none", "arrive", "sitout"}
-				hc.late = []string{"none", "arrive", "leave-live", "rebuy"}
+				hc.late = []string{"none", "arrive", "join-sitout", "leave-live", "rebuy"}
 				hc.finish = []string{"all", "none", "first"}
 			}
 			ss := append(histSuites("c08/", cfgs, bound, func(h *hist) []Monitor { return []Monitor{newMonC08(h, 1)} }), c08SchedSuites(tier)...)
